@@ -528,6 +528,7 @@ class EZSP:
 
     async def write_config(self, config: dict) -> None:
         """Initialize EmberZNet Stack."""
+        user_supplied = set(config)
         config = self._protocol.SCHEMAS[conf.CONF_EZSP_CONFIG](config)
 
         # Not all config will be present in every EZSP version so only use valid keys
@@ -551,9 +552,17 @@ class EZSP:
                 ezsp_config.pop(name, None)
                 continue
 
+            # A value filled in by the schema is our own default, not the user's: keep a
+            # grow-only setting grow-only so that it never shrinks what the NCP has
+            default = ezsp_config.get(name)
             ezsp_config[name] = RuntimeConfig(
                 config_id=t.EzspConfigId[name],
                 value=value,
+                minimum=(
+                    name not in user_supplied
+                    and default is not None
+                    and default.minimum
+                ),
             )
 
         # Make sure CONFIG_PACKET_BUFFER_COUNT is always set last
